@@ -1,7 +1,7 @@
 (** Layer R proofs: C16 at-most-once for Fwd closures and orphaned values (tokens: LinTok*.v). *)
 From Coq Require Import ZArith NArith List Bool Lia.
 From Stk Require Import Lib.U Gen.SrcCount Gen.SrcCore Gen.SrcLog R.Syntax R.Rt R.Mon R.Shape R.Eff R.C15Proofs.
-From Stk Require Import R.Lin R.LinEvs R.LinNin R.LinDel R.C16Proofs R.Own R.LinRef R.LinRefLaw R.LinRefStep R.LinRefInv R.LinUaf R.LinOnce.
+From Stk Require Import R.Lin R.LinEvs R.LinNin R.LinDel R.C16Proofs R.Own R.LinRef R.LinRefLaw R.LinRefStep R.LinRefInv R.LinUaf R.LinOnce R.LinC03S.
 Import ListNotations.
 Local Open Scope Z_scope.
 
@@ -52,4 +52,290 @@ Proof.
         apply forallb_forall. intros e IN. apply in_rev in IN. unfold leaks in IN. apply in_map_iff in IN as (p & <- & _). reflexivity.
     + change (fwds (set_tr ?x ?v)) with (fwds x). unfold class_flags. generalize (class_flag (actors s)). intros f. generalize (actors s) as l. intros l.
       revert s. induction l as [|p l IH]; simpl; intros s; auto. rewrite IH. unfold emit_opt. destruct (f p); reflexivity.
+Qed.
+
+(* ------------------------------------------------------------------ *)
+(** * Orphaned values: MOrphNew a; MTerminate a c; MOrphDrop a travel together *)
+
+Fixpoint norph (a : N) (k : list mop) : Z :=
+  match k with [] => 0 | MOrphNew b :: r => (if N.eqb a b then 1 else 0) + norph a r | _ :: r => norph a r end.
+Fixpoint dorph (a : N) (k : list mop) : Z :=
+  match k with [] => 0 | MOrphDrop b :: r => (if N.eqb a b then 1 else 0) + dorph a r | _ :: r => dorph a r end.
+
+Lemma norph_app a x y : norph a (x ++ y) = norph a x + norph a y.
+Proof. induction x as [|m x IH]; simpl; [lia|]. destruct m; try exact IH. lia. Qed.
+Lemma dorph_app a x y : dorph a (x ++ y) = dorph a x + dorph a y.
+Proof. induction x as [|m x IH]; simpl; [lia|]. destruct m; try exact IH. lia. Qed.
+Lemma norph_noO a l : existsb isO l = false -> norph a l = 0.
+Proof. induction l as [|m l IH]; simpl; auto. intros H. apply orb_false_elim in H as [H1 H2]. destruct m; try discriminate H1; auto. Qed.
+Lemma dorph_noO a l : existsb isO l = false -> dorph a l = 0.
+Proof. induction l as [|m l IH]; simpl; auto. intros H. apply orb_false_elim in H as [H1 H2]. destruct m; try discriminate H1; auto. Qed.
+Lemma dorph_nn a l : 0 <= dorph a l.
+Proof. induction l as [|m l IH]; simpl; [lia|]. destruct m; try exact IH. destruct (N.eqb a a0); lia. Qed.
+
+Definition OK3 (k : list mop) : Prop :=
+  forall w a rest, k = w ++ MOrphNew a :: rest -> exists c r', rest = MTerminate a c :: MOrphDrop a :: r'.
+
+Lemma OK3_tail m k : OK3 (m :: k) -> OK3 k.
+Proof. intros O w a rest E. apply (O (m :: w) a rest). rewrite E. reflexivity. Qed.
+
+Lemma OK3_le a : forall k, OK3 k -> norph a k <= dorph a k.
+Proof.
+  intros k. remember (length k) as n eqn:LN. revert k LN. induction n as [n IH] using (well_founded_induction Wf_nat.lt_wf). intros k LN O.
+  destruct k as [|m k]; [simpl; lia|]. pose proof (OK3_tail _ _ O) as O1.
+  assert (R1 : norph a k <= dorph a k) by (apply (IH (length k)); [subst; simpl; lia | reflexivity | exact O1]).
+  destruct m; simpl; try exact R1.
+  - (* MOrphNew a0 *)
+    destruct (O [] a0 k eq_refl) as (c & r' & ->).
+    assert (R2 : norph a r' <= dorph a r').
+    { apply (IH (length r')); [subst; simpl; lia | reflexivity|]. apply OK3_tail in O1. apply OK3_tail in O1. exact O1. }
+    simpl. destruct (N.eqb a a0); lia.
+  - destruct (N.eqb a a0); lia.
+Qed.
+
+Lemma OK3_pre pre k0 : existsb isO pre = false -> OK3 k0 -> OK3 (pre ++ k0).
+Proof.
+  intros NE O w a rest E. apply app_split in E as [(w0 & K0 & _)|(p2 & KP & _)].
+  - eapply O; eauto.
+  - exfalso. assert (IN : In (MOrphNew a) pre) by (rewrite KP; apply in_or_app; right; left; reflexivity).
+    assert (existsb isO pre = true) by (apply existsb_exists; exists (MOrphNew a); auto). congruence.
+Qed.
+
+Definition orphp (a : N) : N * N := (LK_ORPH, a).
+
+Record QO (k : list mop) (s : st) : Prop := mkQO {
+  qo_ok : OK3 k;
+  qo_le : forall a, dorph a k - norph a k + pkT (orphp a) (tr s) <= pcT (orphp a) (tr s) }.
+
+Lemma K3_orph a : K3 (fst (orphp a)) = true. Proof. reflexivity. Qed.
+
+Lemma end_tail_orph f die :
+  existsb isO (end_tail f die) = false \/
+  (exists b c, end_tail f die = [MOrphNew b; MTerminate b c; MOrphDrop b]).
+Proof. destruct f as [|b|b ready]; simpl; auto. destruct die as [c|]; auto. destruct die as [c|]; destruct ready; simpl; eauto. Qed.
+
+Definition pbOr (e : ev) : bool := match e with EOrphNew _ | EOrphDrop _ => false | _ => true end.
+
+Lemma pbOr_block a evs : forallb pbOr evs = true -> pcT (orphp a) evs = 0 /\ pkT (orphp a) evs = 0.
+Proof.
+  induction evs as [|e l IH]; simpl; [auto|]. intros H. apply andb_prop in H as [H1 H2]. destruct (IH H2) as [C D].
+  assert (Z1 : pc1 (orphp a) e = 0 /\ pk1 (orphp a) e = 0) by (destruct e; try discriminate H1; split; reflexivity). lia.
+Qed.
+
+Lemma evs_O3_Or s s' : evs_in pbO3 s s' -> evs_in pbOr s s'.
+Proof.
+  intros (evs & TR & PB). exists evs. split; auto. apply forallb_forall. intros e IN. rewrite forallb_forall in PB. specialize (PB e IN).
+  destruct e; try reflexivity; discriminate PB.
+Qed.
+
+Ltac passOr := intros Q; inj_R Q; (split; [ei_tac | isO_tac]).
+
+Lemma do_act_Or a s pre s' : do_act a s = (pre, s') -> evs_in pbOr s s' /\ existsb isO pre = false.
+Proof.
+  intros H.
+  assert (SPEC : match a with ANewTok _ _ _ | ANewFwd _ _ _ | AClone _ _ | AFwdSend _ _ => False | _ => True end \/
+                 match a with ANewTok _ _ _ | ANewFwd _ _ _ | AClone _ _ | AFwdSend _ _ => True | _ => False end) by (destruct a; auto).
+  destruct SPEC as [SP|SP].
+  - destruct (do_act_N3 _ _ _ _ H SP) as (A & _ & C). split; [apply evs_O3_Or; exact A | exact C].
+  - revert H. unfold do_act. destruct a; try contradiction; repeat dest_match; passOr.
+Qed.
+
+Lemma drop_val_Or v s pre s' : drop_val v s = (pre, s') -> evs_in pbOr s s' /\ existsb isO pre = false.
+Proof. unfold drop_val. destruct v; repeat dest_match; passOr. Qed.
+
+Theorem step_QO k s k' s' : QO k s -> step k s = Some (k', s') -> QO k' s'.
+Proof.
+  intros [O L] ST. destruct k as [|m k0]; [discriminate|]. simpl in ST. destruct (handle m s) as [pre s1] eqn:HD. inversion ST; subst k' s1; clear ST.
+  pose proof (OK3_tail _ _ O) as O0.
+  assert (NEUT : evs_in pbOr s s' -> existsb isO pre = false -> isO m = false -> QO (pre ++ k0) s').
+  { intros (evs & TR & PB) NE NM. split; [apply OK3_pre; auto|]. intros a. specialize (L a).
+    destruct (pbOr_block a evs PB) as [C D]. rewrite TR, pkT_app, pcT_app, C, D, norph_app, dorph_app, (norph_noO a pre NE), (dorph_noO a pre NE).
+    destruct m; try discriminate NM; simpl in L; lia. }
+  assert (SPEC : match m with MActs _ | MDropVal _ | MOrphNew _ | MOrphDrop _ | MEndBody _ _ => False | _ => True end \/
+                 match m with MActs _ | MDropVal _ | MOrphNew _ | MOrphDrop _ | MEndBody _ _ => True | _ => False end) by (destruct m; auto).
+  destruct SPEC as [SP|SP].
+  { destruct (handle_N3 _ _ _ _ HD SP) as (A & _ & C). apply NEUT; [apply evs_O3_Or; exact A | exact C | destruct m; try reflexivity; contradiction]. }
+  destruct m; try contradiction.
+  - (* MActs *) cbn [handle] in HD. destruct l as [|a l]; [inversion HD; subst; apply NEUT; [apply ei_refl | reflexivity | reflexivity]|].
+    destruct (do_act a s) as [p s1] eqn:DA. inversion HD; subst pre s'. destruct (do_act_Or _ _ _ _ DA) as [G1 G2].
+    apply NEUT; [exact G1 | rewrite isO_app, G2; reflexivity | reflexivity].
+  - (* MEndBody *) cbn [handle] in HD. destruct (frames s) as [|fr rest0].
+    + inversion HD; subst. apply NEUT; [ei_tac | reflexivity | reflexivity].
+    + fold (end_tail f (f_die fr)) in HD. inversion HD; subst pre s'.
+      destruct (end_tail_orph f (f_die fr)) as [NE|(b & c & ET)].
+      * apply NEUT; [ei_tac | rewrite isO_app, isO_drops, NE; reflexivity | reflexivity].
+      * rewrite ET. split.
+        -- intros w a rest E. rewrite <- app_assoc in E. apply app_split in E as [(w0 & K0 & _)|(p2 & KP & _)].
+           ++ simpl in K0. destruct w0 as [|y w0]; simpl in K0; inversion K0; subst; [eauto|].
+              destruct w0 as [|y2 w0]; simpl in H1; inversion H1; subst.
+              destruct w0 as [|y3 w0]; simpl in H2; inversion H2; subst. eapply O0; eauto.
+           ++ exfalso. assert (IN : In (MOrphNew a) (drops (f_loc fr))) by (rewrite KP; apply in_or_app; right; left; reflexivity).
+              assert (existsb isO (drops (f_loc fr)) = true) by (apply existsb_exists; exists (MOrphNew a); auto). rewrite isO_drops in H. discriminate.
+        -- intros a. specialize (L a). change (tr (set_frames (emit s (EEnd uid)) rest0)) with (EEnd uid :: tr s). cbn [pkT pcT].
+           rewrite !norph_app, !dorph_app, (norph_noO a _ (isO_drops _)), (dorph_noO a _ (isO_drops _)). simpl in L |- *.
+           unfold pk1, pc1. simpl. destruct (N.eqb a b); lia.
+  - (* MDropVal *) cbn [handle] in HD. destruct (drop_val_Or _ _ _ _ HD) as [G1 G2]. apply NEUT; auto.
+  - (* MOrphNew *) cbn [handle] in HD. inversion HD; subst pre s'. split; [exact O0|]. intros b. specialize (L b).
+    change (tr (emit s (EOrphNew a))) with (EOrphNew a :: tr s). cbn [pkT pcT app]. unfold pk1, pc1, orphp, p_eqb in *. simpl in L |- *.
+    destruct (N.eqb b a); lia.
+  - (* MOrphDrop *) cbn [handle] in HD. inversion HD; subst pre s'. split; [exact O0|]. intros b. specialize (L b).
+    change (tr (emit s (EOrphDrop a))) with (EOrphDrop a :: tr s). cbn [pkT pcT app]. unfold pk1, pc1, orphp, p_eqb in *. simpl in L |- *.
+    destruct (N.eqb b a); lia.
+Qed.
+
+Lemma QO_init d p : QO (map MTop p ++ [MEpilogue]) (init d).
+Proof.
+  assert (NO : existsb isO (map MTop p ++ [MEpilogue]) = false) by (rewrite isO_app; induction p; simpl; auto).
+  split.
+  - intros w a rest E. exfalso. assert (IN : In (MOrphNew a) (map MTop p ++ [MEpilogue])) by (rewrite E; apply in_or_app; right; left; reflexivity).
+    assert (existsb isO (map MTop p ++ [MEpilogue]) = true) by (apply existsb_exists; exists (MOrphNew a); auto). congruence.
+  - intros a. rewrite (norph_noO a _ NO), (dorph_noO a _ NO). destruct d; simpl; lia.
+Qed.
+
+Lemma QO_bal k s a : QO k s -> pkT (orphp a) (tr s) <= pcT (orphp a) (tr s).
+Proof. intros [O L]. specialize (L a). pose proof (OK3_le a k O). lia. Qed.
+
+(* ------------------------------------------------------------------ *)
+(** * Fwd closures: created with count 1, freed when the count drops to 0, never revived *)
+
+Definition fzo (o : fwdobj) : Z := match o with FwdObj rc (FClos _) _ => if 0 <? rc then 1 else 0 | _ => 0 end.
+Definition fz (f : N) (s : st) : Z := match aget (fwds s) f with Some o => fzo o | None => 0 end.
+Definition fwdp (f : N) : N * N := (LK_FWD, f).
+
+Definition QF (s : st) : Prop := forall f, fz f s + pkT (fwdp f) (tr s) <= pcT (fwdp f) (tr s).
+
+Definition pbFw (e : ev) : bool := match e with EFwdNew _ | EFwdFree _ => false | _ => true end.
+
+Lemma pbFw_block f evs : forallb pbFw evs = true -> pcT (fwdp f) evs = 0 /\ pkT (fwdp f) evs = 0.
+Proof.
+  induction evs as [|e l IH]; simpl; [auto|]. intros H. apply andb_prop in H as [H1 H2]. destruct (IH H2) as [C D].
+  assert (Z1 : pc1 (fwdp f) e = 0 /\ pk1 (fwdp f) e = 0) by (destruct e; try discriminate H1; split; reflexivity). lia.
+Qed.
+
+Lemma evs_O3_Fw s s' : evs_in pbO3 s s' -> evs_in pbFw s s'.
+Proof.
+  intros (evs & TR & PB). exists evs. split; auto. apply forallb_forall. intros e IN. rewrite forallb_forall in PB. specialize (PB e IN).
+  destruct e; try reflexivity; discriminate PB.
+Qed.
+
+Lemma QF_neutral s s' : evs_in pbFw s s' -> fwds s' = fwds s -> QF s -> QF s'.
+Proof.
+  intros (evs & TR & PB) FW Q f. specialize (Q f). destruct (pbFw_block f evs PB) as [C D].
+  unfold fz in *. rewrite FW, TR, pkT_app, pcT_app, C, D. lia.
+Qed.
+
+Lemma QF_neutral' s s' : evs_in pbFw s s' /\ fwds s' = fwds s -> QF s -> QF s'.
+Proof. intros [A B]. apply QF_neutral; auto. Qed.
+
+Lemma fz_aset g s f o s1 : fwds s1 = aset (fwds s) f o -> fz g s1 = if N.eqb g f then fzo o else fz g s.
+Proof.
+  intros E. unfold fz. rewrite E. destruct (N.eqb g f) eqn:Q.
+  - apply N.eqb_eq in Q. subst g. rewrite Own.aget_aset_eq. reflexivity.
+  - rewrite Own.aget_aset_neq; [reflexivity|]. intros ->. rewrite N.eqb_refl in Q. discriminate.
+Qed.
+
+Ltac passFw := intros Q; inj_R Q; (split; [ei_tac | fw_tac]).
+
+Lemma QF_upd s s' f o : evs_in pbFw s s' -> fwds s' = aset (fwds s) f o -> fzo o <= fz f s -> QF s -> QF s'.
+Proof.
+  intros (evs & TR & PB) FW LE Q g. specialize (Q g). destruct (pbFw_block g evs PB) as [C D].
+  rewrite (fz_aset g s f o s' FW), TR, pkT_app, pcT_app, C, D. destruct (N.eqb g f) eqn:E; [apply N.eqb_eq in E; subst g|]; lia.
+Qed.
+
+Lemma clone_fzo rc k tg : 1 <= rc -> fzo (FwdObj (oz (minrc_clone rc)) k tg) = fzo (FwdObj rc k tg).
+Proof.
+  intros R. unfold fzo, minrc_clone. cbn [oz]. destruct k; [|reflexivity].
+  destruct (Z.ltb_spec 0 (Z.min (rc + 1) 18446744073709551615)); destruct (Z.ltb_spec 0 rc); lia.
+Qed.
+
+Lemma do_act_QF a s pre s' : PJ (fun _ => 0) s -> do_act a s = (pre, s') -> QF s -> QF s'.
+Proof.
+  intros P H QQ.
+  assert (SPEC : match a with ANewTok _ _ _ | ANewFwd _ _ _ | AClone _ _ | AFwdSend _ _ => False | _ => True end \/
+                 match a with ANewTok _ _ _ | ANewFwd _ _ _ | AClone _ _ | AFwdSend _ _ => True | _ => False end) by (destruct a; auto).
+  destruct SPEC as [SP|SP].
+  { destruct (do_act_N3 _ _ _ _ H SP) as (A & B & _). eapply QF_neutral; eauto. apply evs_O3_Fw. exact A. }
+  revert H. unfold do_act. destruct a; try contradiction.
+  - (* AClone *)
+    destruct (lookup s h) as [[a|a|a|r|f|t sc]|] eqn:L; try (intros Q0; apply (QF_neutral' s); [|exact QQ]; revert Q0; passFw; fail).
+    destruct (aget (fwds s) f) as [[rc k tg]|] eqn:F; [|intros Q0; apply (QF_neutral' s); [|exact QQ]; revert Q0; passFw].
+    destruct (fwd_live s f h P L _ _ _ F) as [RC1 RC2]. intros Q0.
+    apply (QF_upd s s' f (FwdObj (oz (minrc_clone rc)) k tg)); [| | |exact QQ].
+    + eapply ei_bind; [|exact Q0]. apply (ei_same _ _ s); [apply ei_refl | reflexivity].
+    + rewrite (fwds_bind _ _ _ _ _ Q0). reflexivity.
+    + rewrite clone_fzo by lia. unfold fz. rewrite F. lia.
+  - (* ANewFwd *)
+    destruct (aget (fwds s) f) as [o|] eqn:F; [intros Q0; apply (QF_neutral' s); [|exact QQ]; revert Q0; passFw|].
+    destruct k as [body|ht c].
+    + intros Q0 g. specialize (QQ g).
+      assert (TR : tr s' = EFwdNew f :: tr s).
+      { destruct (ei_bind (fun _ => true) _ _ _ _ _ _ (ei_refl _ _) Q0) as (evs & TR & _). revert Q0. unfold bind.
+        destruct (aget (env _) h); intros Q0; inversion Q0; reflexivity. }
+      assert (FW : fwds s' = aset (fwds s) f (FwdObj MINRC_INIT (FClos body) None)) by (rewrite (fwds_bind _ _ _ _ _ Q0); reflexivity).
+      rewrite (fz_aset g s f _ s' FW), TR. cbn [pkT pcT]. unfold pk1, pc1, fwdp, p_eqb in *. simpl.
+      destruct (N.eqb g f) eqn:E; [apply N.eqb_eq in E; subst g; unfold fz in QQ; rewrite F in QQ|]; lia.
+    + destruct (lookup s ht) as [v|]; [|intros Q0; apply (QF_neutral' s); [|exact QQ]; revert Q0; passFw].
+      destruct (handle_actor v) as [a|]; [|intros Q0; apply (QF_neutral' s); [|exact QQ]; revert Q0; passFw].
+      intros Q0. apply (QF_upd s s' f (FwdObj MINRC_INIT (FTo ht c) (Some a))); [| | |exact QQ].
+      * eapply ei_bind; [|exact Q0]. apply (ei_same _ _ (ref_clone s a)); [|reflexivity]. apply ei_ref_clone; [intros; reflexivity | apply ei_refl].
+      * rewrite (fwds_bind _ _ _ _ _ Q0). cbn [fwds set_fwds]. rewrite fwds_ref_clone. reflexivity.
+      * unfold fz. rewrite F. simpl. lia.
+  - (* AFwdSend *)
+    destruct (lookup s h) as [[a|a|a|r|f|t sc]|] eqn:L; try (intros Q0; apply (QF_neutral' s); [|exact QQ]; revert Q0; passFw; fail).
+    destruct (aget (fwds s) f) as [[rc k tg]|] eqn:F; [|intros Q0; apply (QF_neutral' s); [|exact QQ]; revert Q0; passFw].
+    destruct (fwd_live s f h P L _ _ _ F) as [RC1 RC2].
+    destruct k as [body|ht c].
+    + intros Q0; inj_R Q0. apply (QF_upd s _ f (FwdObj (oz (minrc_clone rc)) (FClos body) tg)); [| | |exact QQ].
+      * ei_tac.
+      * reflexivity.
+      * rewrite clone_fzo by lia. unfold fz. rewrite F. lia.
+    + destruct tg as [a|]; [|intros Q0; apply (QF_neutral' s); [|exact QQ]; revert Q0; passFw].
+      destruct (inst_nocaps c (fun b => KMeth a b (Some v)) (ref_clone s a)) as [ci s2] eqn:I.
+      intros Q0. apply (QF_neutral' s); [|exact QQ]; revert Q0; passFw.
+  - (* ANewTok *) intros Q0. apply (QF_neutral' s); [|exact QQ]; revert Q0; passFw.
+Qed.
+
+Lemma dropval_QF v s pre s' : PJ (fun x => hv x v) s -> drop_val v s = (pre, s') -> QF s -> QF s'.
+Proof.
+  intros P H QQ. revert H. unfold drop_val. destruct v as [a|a|a|r|f|t sc]; try (intros Q0; apply (QF_neutral' s); [|exact QQ]; revert Q0; passFw; fail).
+  destruct (aget (fwds s) f) as [[rc k tg]|] eqn:F; [|intros Q0; apply (QF_neutral' s); [|exact QQ]; revert Q0; passFw].
+  pose proof (frc_range _ _ _ _ P F) as RR. cbn [frc] in RR.
+  destruct (minrc_drop rc) as [[v' z]|] eqn:MD; [|intros Q0; apply (QF_neutral' s); [|exact QQ]; revert Q0; passFw].
+  pose proof (drop_cases rc v' z RR MD) as DC.
+  assert (FZ : fz f s = fzo (FwdObj rc k tg)) by (unfold fz; rewrite F; reflexivity).
+  destruct z.
+  - destruct DC as [(-> & -> & _)|(D & _)]; [|discriminate D].
+    destruct k as [b|h0 c]; [|destruct tg as [a|]]; intros Q0; inj_R Q0.
+    + (* FClos: freed *) intros g. specialize (QQ g).
+      rewrite (fz_aset g s f (FwdObj 0 (FClos b) tg) (emit (set_fwds s (aset (fwds s) f (FwdObj 0 (FClos b) tg))) (EFwdFree f)) eq_refl). change (tr (emit ?x ?e)) with (e :: tr x). change (tr (set_fwds s ?v)) with (tr s).
+      cbn [pkT pcT]. unfold pk1, pc1, fwdp, p_eqb in *. simpl. destruct (N.eqb g f) eqn:E; [apply N.eqb_eq in E; subst g; rewrite FZ in QQ; cbn [fzo] in QQ; change (0 <? 1) with true in QQ; cbv iota in QQ|]; lia.
+    + apply (QF_upd s _ f (FwdObj 0 (FTo h0 c) (Some a))); [ei_tac | reflexivity | rewrite FZ; simpl; lia | exact QQ].
+    + apply (QF_upd s _ f (FwdObj 0 (FTo h0 c) None)); [ei_tac | reflexivity | rewrite FZ; simpl; lia | exact QQ].
+  - destruct DC as [(_ & _ & D)|(_ & DC)]; [discriminate D|]. intros Q0; inj_R Q0.
+    apply (QF_upd s _ f (FwdObj v' k tg)); [ei_tac | reflexivity | | exact QQ]. rewrite FZ. unfold fzo. destruct k; [|lia].
+    destruct DC as [(-> & ->)|[(-> & ->)|(B & ->)]]; repeat match goal with |- context [?p <? ?q] => destruct (Z.ltb_spec p q) end; unfold MX in *; lia.
+Qed.
+
+Theorem step_QF k s k' s' : J k s -> QF s -> step k s = Some (k', s') -> QF s'.
+Proof.
+  intros JJ QQ ST. destruct k as [|m k0]; [discriminate|]. simpl in ST. destruct (handle m s) as [pre s1] eqn:HD. inversion ST; subst k' s1; clear ST.
+  assert (SPEC : match m with MActs _ | MDropVal _ | MOrphNew _ | MOrphDrop _ | MEndBody _ _ => False | _ => True end \/
+                 match m with MActs _ | MDropVal _ | MOrphNew _ | MOrphDrop _ | MEndBody _ _ => True | _ => False end) by (destruct m; auto).
+  destruct SPEC as [SP|SP].
+  { destruct (handle_N3 _ _ _ _ HD SP) as (A & B & _). eapply QF_neutral; eauto. apply evs_O3_Fw. exact A. }
+  pose proof (J_PJ _ _ _ JJ) as P. destruct m; try contradiction; cbn [handle hmop] in *.
+  - destruct l as [|a l]; [inversion HD; subst; exact QQ|]. destruct (do_act a s) as [p s1] eqn:DA. inversion HD; subst pre s'.
+    eapply do_act_QF; eauto.
+  - apply (QF_neutral' s); [|exact QQ]. revert HD. destruct (frames s); passFw.
+  - eapply dropval_QF; eauto.
+  - apply (QF_neutral' s); [|exact QQ]. revert HD. passFw.
+  - apply (QF_neutral' s); [|exact QQ]. revert HD. passFw.
+Qed.
+
+Lemma QF_init d : QF (init d).
+Proof. intros f. destruct d; simpl; unfold fz; simpl; lia. Qed.
+
+Lemma QF_bal s f : QF s -> pkT (fwdp f) (tr s) <= pcT (fwdp f) (tr s).
+Proof.
+  intros Q. specialize (Q f). assert (0 <= fz f s); [|lia]. unfold fz. destruct (aget (fwds s) f) as [[rc [b|h c] tg]|]; simpl; try lia. destruct (0 <? rc); lia.
 Qed.
